@@ -176,6 +176,18 @@ CLAIMED = {
             "(format_shadow): formatter failures that depend on a value without any Python branch depending on it are outside. "
             "Bound: regions of 1-5 bytes on 8 (quick) / all (thorough) fixtures, 6-8 byte stream prefix.",
             "symbolic execution of the real viewer command (symx) over symbolic byte regions, z3 path feasibility; each path replayed on a real file", "3 C26"),
+    "C16": (EX,
+            "Synthetic single-column level tables (one or two restricted keys, every other key unconstrained) plus an ordering pattern "
+            "are installed as level 1 in the repository's own tables; the restriction variants per key are derived from the values the "
+            "validator checks on the unconstrained encoding (exactly those, a superset, a range, flipped flag, neighbouring values, zero; "
+            "restrictions on keys the stream does not use). Which (configuration, pattern, key, variant) is installed is chosen by "
+            "solver-enumerated selectors; the real make_sequence + serialiser + validator run on each: either an "
+            "UnsatisfiableCodecFeaturesError or acceptance under the same table. Exhaustive over single keys within the catalogue, "
+            "seeded sample of key pairs.",
+            "Selector-symbolic: table cells live in hash-keyed ValueSets, so the solver enumerates cases and does not abstract values. "
+            "Documented precondition applied: restrictions excluding the configuration's own values only for keys whose coding the encoder "
+            "chooses (sequence-header parameters, extended-transform flags). Real level tables: C15. Bound: 8/10 configurations, 2/5 patterns.",
+            "selector-symbolic bounded exhaustive exploration of the real encoder+validator under synthetic level tables (symx)", "3 C16"),
     "C11": (MC,
             "Symbolic execution of the real dwt_pad_addition/dwt/idwt/idwt_pad_removal on components whose samples are unbounded symbolic "
             "integers: one path per (filter pair, depths, size, component); every sample of the reconstruction is proved equal to the input "
@@ -196,7 +208,6 @@ CLAIMED = {
 
 NA = {
     "C05": "quantifies over whole test-case generator runs (numpy pictures, PIL, generator registry) over an enumerated configuration space; no value stays symbolic from configuration to verdict, so a solver would decide nothing",
-    "C16": "quantifies over level-table structures whose cells live in hash-keyed ValueSets (every symbolic cell is concretised) and the full encode->validate pipeline; the real-level part is checked under C15",
     "C22": "picture generators are numpy float pipelines (matmul, power, linalg.inv, PIL resampling): C-extension boundaries concretise every input and floats are out of reach of the engine",
     "C23": "byte packing is inline numpy over uint8/object arrays, metadata goes through json and the file system; a numpy stand-in would re-model the library rather than execute the code",
     "C24": "quantifier is over OS process schedules and hash seeds; nothing a solver can encode from the Python source",
